@@ -46,6 +46,19 @@ for out in sorted(glob.glob('/tmp/wt/C*-out')) + sorted(glob.glob('/tmp/wt2/C*-o
             'caught_by_target_property_check': any(c.startswith(pid) for c in caught),
             'first_detail_line_of_target_check': detail,
         }
+        bl = os.path.join(out, f'baseline{n}.json')
+        if os.path.exists(bl):
+            b = json.load(open(bl))
+            bc = b.get('caught_by', '').split()
+            meta['baseline (the checks as they stood when this change was written, before they were strengthened)'] = {
+                'caught_by_quick_checks': bc,
+                'caught_by_target_property_check': any(c.startswith(pid) for c in bc),
+            }
+            # the re-run after strengthening may have been restricted to the target check: keep what the baseline run saw as well
+            merged = sorted(set(caught) | set(bc))
+            meta['caught_by_quick_checks'] = merged
+            meta['caught_by_target_property_check'] = any(c.startswith(pid) for c in merged)
+            caught = merged
         mp = os.path.join(d, 'meta.json')
         if os.path.exists(mp):
             try:
